@@ -366,6 +366,9 @@ class Result:
         cov = self.cov
         cov["rule"] = rule
         cov["exhaustive"] = exhaustive
+        sites = cov.pop("_sites", None)
+        if sites is not None:
+            cov["send_sites"] = send_site_census(sites)
         if extra:
             cov.update(extra)
         if not cov["samples"]:
@@ -388,6 +391,31 @@ class Result:
             print("VIOLATION property=%s replay=%s formula=%s key=%s %s" % (self.prop, path, formula, key, what))
         sys.stdout.flush()
         return 1 if self.violations else 0
+
+
+def send_site_census(reached):
+    """static census (go/ast, bin/census) of the call sites through which bytes reach the transport or a stream,
+    against the sites the executed cases and simulations passed through (caller file:line>callee)"""
+    try:
+        p = subprocess.run(["go", "run", os.path.join(VERIF, "bin", "census", "main.go"), REPO], env=goenv(),
+                           cwd=os.path.join(VERIF, "bin", "census"), stdout=subprocess.PIPE, stderr=subprocess.PIPE,
+                           text=True, timeout=300)
+    except Exception as e:       # coverage information only
+        return {"error": str(e)}
+    if p.returncode != 0:
+        return {"error": p.stderr[-300:]}
+    hit = {}
+    for r in reached:
+        loc, callee = r.split(">")
+        f, ln = loc.rsplit(":", 1)
+        hit.setdefault((f, callee), set()).add(int(ln))
+    yes, no = [], []
+    for line in p.stdout.splitlines():
+        s = json.loads(line)
+        name = "%s:%d %s() in %s" % (s["file"], s["start"], s["callee"], s["in"])
+        lines = hit.get((s["file"], s["callee"]), ())
+        (yes if any(s["start"] <= x <= s["end"] for x in lines) else no).append(name)
+    return {"census": len(yes) + len(no), "reached": yes, "not_reached": no}
 
 
 def read_lines(path, wanted):
